@@ -17,14 +17,27 @@ package main
 //@   ghost ipErr bool = false
 //@   ghost nFatal int = 0
 //@   ghost said bool = false
-//@   on call iobroker.New(i, o) (b, e): iobErr = e != nil
-//@   on call os.OpenFile(n, fl, pm) (f, e): logErr = e != nil
-//@   on call opshell.New(i, o, p, nt, g, n) (sh, cl, e): shellErr = e != nil; raw = e == nil
-//@   on call ezicanhazip.IPv4() (a, e): ipErr = e != nil
-//@   on call hsrv.New(sl, a, fd, tf, i, o, b, cf, cb, p6, one) (s, e): hsrvErr = e != nil
+//@   ghost pending int = 0
+//@   ghost perr error = nil
+//@   ghost reported bool = false
+//@   on call iobroker.New(i, o) (b, e): iobErr = e != nil; assert(pending == 0, "no_earlier_failure_ignored"); if e != nil { pending = 1; perr = e }
+//@   on call os.OpenFile(n, fl, pm) (f, e): logErr = e != nil; assert(pending == 0 && n == *logFile, "no_earlier_failure_ignored"); if e != nil { pending = 2; perr = e }
+//@   on call insertGen() (b, e): assert(pending == 0, "no_earlier_failure_ignored"); if e != nil { pending = 3; perr = e }
+//@   on call opshell.New(i, o, p, nt, g, n) (sh, cl, e): shellErr = e != nil; raw = e == nil; assert(pending == 0, "no_earlier_failure_ignored"); if e != nil { pending = 4; perr = e }
+//@   on call ezicanhazip.IPv4() (a, e): ipErr = e != nil; assert(pending == 0, "no_earlier_failure_ignored"); if e != nil { pending = 5; perr = e }
+//@   on call hsrv.New(sl, a, fd, tf, i, o, b, cf, cb, p6, one) (s, e): hsrvErr = e != nil; assert(pending == 0, "no_earlier_failure_ignored"); if e != nil { pending = 6; perr = e }
 //@   on enter cleanup(): raw = false
-//@   on enter log.Printf(f, v): said = true
-//@   on enter opshell.Shell.Logf(sh, c, nts, f, v): said = true
-//@   on enter log.Fatalf(f, v): assert(!raw, "no_fatal_exit_while_terminal_is_raw"); nFatal++
+//@   on enter log.Printf(f, v): said = true; if pending == 1 { assert(len(v) >= 1 && boxes(v[len(v)-1], perr), "message_names_the_cause"); reported = true }
+//@   on enter opshell.Shell.Logf(sh, c, nts, f, v): said = true; if pending == 5 || pending == 6 { assert(len(v) >= 1 && boxes(v[len(v)-1], perr), "message_names_the_cause"); reported = true }
+//@   on enter log.Fatalf(f, v): assert(!raw, "no_fatal_exit_while_terminal_is_raw"); assert(pending == 2 || pending == 3 || pending == 4, "fatal_exit_only_for_a_startup_failure"); assert(len(v) >= 1 && boxes(v[len(v)-1], perr), "fatal_message_names_the_cause"); pending = 0; nFatal++
 //@   ensures terminal_restored: !raw
 //@   ensures failures_nonzero: imp(iobErr || hsrvErr || ipErr, code != 0 && said)
+//@   ensures startup_failure_reported_with_its_cause_and_nonzero_status: imp(pending != 0, reported && code != 0)
+
+// main: the process exit status is rmain's result.
+//@ func main()
+//@   props C20
+//@   ghost rc int = 0
+//@   ghost n int = 0
+//@   on call rmain() (c): rc = c; n++
+//@   on enter os.Exit(c): assert(n == 1 && c == rc, "exit_status_is_rmains_result")
